@@ -535,11 +535,16 @@ func (s *SecureChannel) readChunk() (*MessageChunk, error) {
 				return nil, err
 			}
 
-			s.openingInstance.algo = algo
+			// On a server the opening instance is the active instance of
+			// the channel: other goroutines use its algorithm to secure
+			// responses while the request for a renewal is read. Decrypt
+			// with an instance of its own instead of replacing the
+			// algorithm of the live one.
+			decryptWith = &channelInstance{sc: s, algo: algo}
 			verifPoint("sc.srvopn.algoSwapped")
+		} else {
+			decryptWith = s.openingInstance
 		}
-
-		decryptWith = s.openingInstance
 	case "CLO":
 		return nil, io.EOF
 	case "MSG":
@@ -813,6 +818,13 @@ func (s *SecureChannel) handleOpenSecureChannelRequest(reqID uint32, svc ua.Requ
 		return ua.StatusBadSecurityPolicyRejected
 	}
 
+	// Responses are sent by other goroutines as well. They must neither see
+	// the asymmetric algorithm, which is only meant for the response to this
+	// request, nor a half configured instance.
+	instance := s.openingInstance
+	instance.Lock()
+	defer instance.Unlock()
+
 	s.cfg.Lifetime = req.RequestedLifetime
 	s.cfg.SecurityMode = req.SecurityMode
 
@@ -848,7 +860,6 @@ func (s *SecureChannel) handleOpenSecureChannelRequest(reqID uint32, svc ua.Requ
 		return err
 	}
 
-	instance := s.openingInstance
 	instance.algo = algo
 	instance.sc.requestID = req.RequestHeader.RequestHandle // todo(fs): is this correct?
 
@@ -875,7 +886,7 @@ func (s *SecureChannel) handleOpenSecureChannelRequest(reqID uint32, svc ua.Requ
 	}
 
 	ctx := context.Background() // todo(fs): fixme
-	if err := s.sendResponseWithContext(ctx, instance, reqID, resp); err != nil {
+	if err := s.sendResponseLocked(ctx, instance, reqID, resp); err != nil {
 		return err
 	}
 
@@ -1298,6 +1309,16 @@ func (s *SecureChannel) sendResponseWithContext(ctx context.Context, instance *c
 	}
 	instance.Lock()
 	defer instance.Unlock()
+
+	return s.sendResponseLocked(ctx, instance, reqID, resp)
+}
+
+// sendResponseLocked sends the response on the instance whose lock the caller holds.
+func (s *SecureChannel) sendResponseLocked(ctx context.Context, instance *channelInstance, reqID uint32, resp ua.Response) error {
+	typeID := ua.ServiceTypeID(resp)
+	if typeID == 0 {
+		return errors.Errorf("uasc: unknown service %T. Did you call register?", resp)
+	}
 
 	m := instance.newMessage(resp, typeID, reqID)
 	if _, err := s.writeMessageChunks(ctx, instance, reqID, m, resp); err != nil {
